@@ -324,7 +324,36 @@ class Estimator(TourSM):
             out.notes.append("divergence outside %s's cone (Estimator %s, fields %s)" % (prop, rec["act"]["t"], sorted(fields)))
 
 
+def steer_cases(out, prop, tier, seed):
+    """spec/SteerCases.tla: TLC enumerates (offset, limit) cases of the steering decision with the exact clamped frequency;
+    the harness runs each on a fresh real controller."""
+    cases = []
+    res = vf.run_tlc("SteerCases", "SteerCases.cfg", workers=1, timeout=300, tags=("SCASE",), line_sink=lambda t, o: cases.append(o), coverage=False)
+    if res.violated or not cases:
+        raise vf.ToolError("SteerCases: %s" % (res.violated or "no cases"))
+    cases.sort(key=vf.key)
+    wd = vf.workdir("SteerCases")
+    inp, outp = os.path.join(wd, "cases.ndjson"), os.path.join(wd, "results.ndjson")
+    vf.write_ndjson(inp, cases)
+    vf.run_harness("verif_ext", Estimator.test, {"mode": "steer_cases", "input": inp, "output": outp, "seed": seed}, which="ext")
+    results = vf.read_ndjson(outp)
+    if len(results) != len(cases):
+        raise vf.ToolError("steer cases: %d results for %d cases" % (len(results), len(cases)))
+    for r in results:
+        mine = [f for f in r["fields"] if f in ("out.fmax", "out.dfreq", "out.applied", "panic")]
+        if mine:
+            c = r["case"]
+            out.violation("SteerCases:o=%d,m=%d,%s:%s" % (c["o"], c["m"], c["kind"], ",".join(sorted(mine))), {"case": c, "observed": r["observed"]})
+        elif r["fields"]:
+            out.notes.append("steer case %s differs outside C43's cone: %s" % (r["case"], r["fields"]))
+    out.add("steer_cases_confirmed", len(results))
+    out.add("states", res.distinct)
+    out.add("transitions", len(cases))
+
+
 def run_estimator(out, prop, tier, seed):
+    if prop == "C43":
+        steer_cases(out, prop, tier, seed)
     e = Estimator()
     if prop == "C42" and tier == "quick":
         # four identifiers, three steered clocks, two links: a clock created behind a link row with estimates seeded
